@@ -32,4 +32,33 @@ mod verif_kani {
             Err(_) => assert!(false),
         }
     }
+
+    struct Buf { b: [u8; 8], n: usize }
+    impl std::io::Write for Buf {
+        fn write(&mut self, data: &[u8]) -> std::io::Result<usize> {
+            let mut i = 0;
+            while i < data.len() && self.n < 8 { self.b[self.n] = data[i]; self.n += 1; i += 1; }
+            Ok(i)
+        }
+        fn flush(&mut self) -> std::io::Result<()> { Ok(()) }
+    }
+
+    #[kani::proof]
+    #[kani::unwind(10)]
+    fn c27_multiformat_roundtrip_small_writer() {
+        let codec: u32 = kani::any();
+        let expected: u32 = kani::any();
+        let v: u8 = kani::any();
+        let mut w = Buf { b: [0; 8], n: 0 };
+        let r = write_multiformat(&v, codec, &ByteFmt, &mut w);
+        let okw = r.is_ok();
+        std::mem::forget(r);
+        assert!(okw);
+        let dec: Result<u8, _> = decode_multiformat(&w.b[..w.n], expected, &ByteFmt);
+        match dec {
+            Ok(d) => assert!(codec == expected && d == v),
+            Err(DecodeError::Codec(c)) => assert!(codec != expected && c == codec),
+            Err(_) => assert!(false),
+        }
+    }
 }
